@@ -1,4 +1,6 @@
-(* C03, genuine defects of the pinned tree (both are "the expansion raises on a valid expression"):
+(* C03, genuine defects found in the pinned tree (both are "the expansion raises on a valid expression").
+   (1) was repaired in /repo by commit e01964a (the model below is that of the pre-fix lowering; the former
+   witness is now an ordinary traced obligation); (2) is open:
 
    (1) curl-literal-component: LowerCompoundAlgebra.curl computes a[j].dx(i) component by component.
        For a list tensor, a[j] is simplified to the j-th entry; if that entry is a literal, `.dx`
